@@ -171,7 +171,11 @@ def _find_shared_versions(my_versions, their_versions): # -> Option[list]:
     versions (consisting of arbitrary strings). We prefer a higher
     version from 'our' list over the other list.
     """
-    their_dilation_versions = set(their_versions)
+    # their_versions is whatever JSON the peer sent under "can-dilate":
+    # only a list can offer versions, and only strings can name one
+    if not isinstance(their_versions, (list, tuple)):
+        their_versions = []
+    their_dilation_versions = {v for v in their_versions if isinstance(v, str)}
     shared_versions = set(my_versions).intersection(their_dilation_versions)
     best_version = None
 
